@@ -8,6 +8,7 @@ package trzsz
 import (
 	"bytes"
 	"fmt"
+	"regexp"
 	"strconv"
 	"strings"
 	"testing"
@@ -173,8 +174,11 @@ func vfRetag(id string) string {
 	return id
 }
 
+var vfGoRe = regexp.MustCompile(`TRZSZ(GO)+`)
+
+// vfNormGO removes the marker decoration, however often it was applied (a chunk may already carry TRZSZGO text).
 func vfNormGO(b []byte) []byte {
-	return bytes.ReplaceAll(b, []byte("TRZSZGO"), []byte("TRZSZ"))
+	return vfGoRe.ReplaceAll(b, []byte("TRZSZ"))
 }
 
 func vfC06Run(cs vfC06Case) (msg string, fired int, suppressed int) {
@@ -376,7 +380,9 @@ func vfGenPrefix(rt *rapid.T) []byte {
 	case 1:
 		return []byte("\x1b7\x07")
 	case 2:
-		return []byte(rapid.SampledFrom([]string{"user@host:~$ tsz file\r\n\x1b7\x07", "\n\x1b[1A\x1b[0J\x1b7\x07", "TRZSZ ", "::TRZSZ:TRANSFER", "::TRZSZ:TRANSFER:X:", "Saved 1 file\r\n", "#CFG:abc\n"}).Draw(rt, "prefixtxt"))
+		return []byte(rapid.SampledFrom([]string{"user@host:~$ tsz file\r\n\x1b7\x07", "\n\x1b[1A\x1b[0J\x1b7\x07", "TRZSZ ", "::TRZSZ:TRANSFER", "::TRZSZ:TRANSFER:X:", "Saved 1 file\r\n", "#CFG:abc\n",
+			// a redraw can put an earlier complete trigger into the same read: the last occurrence is the one acted on
+			"\x1b7\x07::TRZSZ:TRANSFER:S:1.1.8\r\n", "::TRZSZ:TRANSFER:R:1.1.6:7\r\n\x1b[2J", "\x1b7\x07::TRZSZ:TRANSFER:D:1.0.0:123:45\r\n"}).Draw(rt, "prefixtxt"))
 	default:
 		n := rapid.IntRange(0, 60).Draw(rt, "prefixlen")
 		b := make([]byte, n)
